@@ -625,4 +625,32 @@ def run (db : DB) (ops : List Op) : DB := ops.foldl step db
 /-- the directory after a crash that let exactly the first `n` effects of `db` complete -/
 def crashFS (fs0 : FS) (db : DB) (n : Nat) : FS := fs0.applyAll ((db.effs.take n).map (·.2))
 
+/-! ## histories that continue after a crash -/
+
+/-- the file operations `op` performs in state `db`, in order -/
+def opEffs (db : DB) (op : Op) : List Effect := ((step db op).effs.drop db.effs.length).map (·.2)
+
+/-- the directory left by a process that died inside `op` after exactly `n` of its file operations
+    (`n = 0`: before the first one; `n ≥` their number: after the last one) -/
+def crashDir (db : DB) (op : Op) (n : Nat) : FS := db.fs.applyAll ((opEffs db op).take n)
+
+/-- crashes inside successive recovery attempts: each NewDBExt(non-volatile, LoadData) on the directory dies after
+    `m` of its own file operations (removal of the older index file, of a discarded log, of unused data files) -/
+def recrash (opts : Opts) (F : FS) : List Nat → FS
+  | [] => F
+  | m :: t => recrash opts (F.applyAll (((openDB F false true opts).effs.map (·.2)).take m)) t
+
+inductive HItem
+  | op (o : Op)
+  /-- the process dies inside `o` after `n` file operations; then recovery attempts that die inside NewDBExt after
+      `ms` of its file operations; then NewDBExt(non-volatile, LoadData, opts) that completes -/
+  | crash (o : Op) (n : Nat) (ms : List Nat) (opts : Opts)
+deriving Repr
+
+def hstep (db : DB) : HItem → DB
+  | .op o => step db o
+  | .crash o n ms opts => openDB (recrash opts (crashDir db o n) ms) false true opts
+
+def hrun (db : DB) (H : List HItem) : DB := H.foldl hstep db
+
 end GocoinV.Qdb
